@@ -8,7 +8,7 @@
    part 1, a layout row of a stated shape in part 2). *)
 From Coq Require Import ZArith List Bool Lia.
 Import ListNotations.
-From Urwid Require Import PyBase PyList Utf8 Width Utf8Proofs Edit EditSpec EditProofs EditLayoutProofs EditBytes EditBytesProofs EditOnTextLayout.
+From Urwid Require Import PyBase PyList Utf8 Width Utf8Proofs Edit EditSpec EditProofs EditLayoutProofs EditBytes EditBytesProofs EditOnTextLayout EditBytesGeneric WideExact EditWideProofs.
 From Urwid Require TextLayout.
 Open Scope Z_scope.
 
@@ -272,7 +272,7 @@ Print Assumptions click_cell_on_standard_layout.
        layouts satisfy lay_bnd (always, so far). --- *)
 Theorem pos_on_char_boundary_inv :
   forall wcw es sb, OnB sb -> evs_ok wcw sb es ->
-    Forall (fun o => OnB (fst (fst o))) (snd (brun wcw sb es)) /\ OnB (fst (brun wcw sb es)).
+    Forall (fun o => OnB (fst (fst o))) (snd (brun wcw MUtf8 sb es)) /\ OnB (fst (brun wcw MUtf8 sb es)).
 Proof. intros wcw es sb. exact (brun_OnB wcw (fun c => [c]) (fun u => u) es sb). Qed.
 Print Assumptions pos_on_char_boundary_inv.
 
@@ -295,7 +295,7 @@ Print Assumptions bytes_init_on_boundary.
 
 (* one event *)
 Theorem pos_on_char_boundary_step :
-  forall wcw sb e, OnB sb -> ev_ok sb e -> OnB (fst (fst (bstep wcw sb e))).
+  forall wcw sb e, OnB sb -> ev_ok sb e -> OnB (fst (fst (bstep wcw MUtf8 sb e))).
 Proof. intros wcw. exact (bstep_OnB wcw (fun c => [c]) (fun u => u)). Qed.
 Print Assumptions pos_on_char_boundary_step.
 
@@ -308,7 +308,7 @@ Print Assumptions pos_on_char_boundary_step.
 Theorem bytes_keys_simulate_reference :
   forall wcw upper lower sb ss k w lay lay',
     Rb sb ss -> edit_key k ->
-    let '(sb', sg, r) := bkeypress wcw sb k w lay in
+    let '(sb', sg, r) := bkeypress wcw MUtf8 sb k w lay in
     Rb sb' (fst (ref_key (Width.cw wcw) upper lower ss k w lay')) /\
     r = snd (ref_key (Width.cw wcw) upper lower ss k w lay') /\
     chain (text sb) sg (text sb') /\ (r = Ok RUnhandled -> sg = []).
@@ -322,7 +322,7 @@ Theorem bytes_tab_inserts_blanks :
   forall wcw sb ss w lay,
     Rb sb ss ->
     let n := 8 - (pos sb mod 8) in
-    let '(sb', sg, r) := bkeypress wcw sb KTab w lay in
+    let '(sb', sg, r) := bkeypress wcw MUtf8 sb KTab w lay in
     if allow_tab ss then
       Rb sb' (put ss (ins_at (text ss) (pos ss) (spaces n)) (pos ss + zlen (spaces n))) /\ r = Ok RHandled /\
       chain (text sb) sg (text sb')
@@ -333,14 +333,77 @@ Print Assumptions bytes_tab_inserts_blanks.
 (* the layout maps on bytes return character boundaries when the layout cuts at boundaries *)
 Theorem bytes_column_to_offset_on_boundary :
   forall wcw d lay pc row p,
-    Forall cp d -> lay_bnd d lay -> bcalc_pos wcw (encs d) lay pc row = Ok p -> bnd d p.
+    Forall cp d -> lay_bnd d lay -> bcalc_pos wcw MUtf8 (encs d) lay pc row = Ok p -> bnd d p.
 Proof. exact bcalc_pos_bnd. Qed.
 Print Assumptions bytes_column_to_offset_on_boundary.
 
+(* ===== part 3b: bytes mode under the double-byte ('wide': euc-jp, big5, gbk, uhc, euc-kr) and the
+   single-byte ('narrow': latin-1, ...) byte encodings =====
+   The bytes model is parametric in str_util's byte-encoding mode; the theorems come from ONE generic
+   development (Proofs/EditBytesGeneric.v: an encoding scheme = characters, their bytes, and the facts
+   about move_prev_char / move_next_char / calc_text_pos in that mode) instantiated with C11's
+   theorems about within_double_byte (Proofs/WideExact.v, Proofs/WideProofs.v, read-only).
+   A double-byte text is well-formed when it is [dbflat cs] for characters cs that are a single byte
+   below 0x80 or a lead byte 0x81..0xFF followed by a trail byte 0x40..0x7E / 0x80..0xFF. *)
+
+(* --- any mode, ANY bytes (ill-formed text included), every history: 0 <= offset <= len --- *)
+Theorem bytes_pos_inv :
+  forall wcw m es s, Inv s ->
+    Forall (fun o => Inv (fst (fst o))) (snd (brun wcw m s es)) /\ Inv (fst (brun wcw m s es)).
+Proof. intros wcw m es s. exact (bytes_pos_inv_run wcw m es s). Qed.
+Print Assumptions bytes_pos_inv.
+
+(* --- wide mode: the offset is never inside a double-byte character, along every history from a
+       well-formed caption/text with the offset on a boundary.  Unconditional for ASCII keys, keys that
+       are refused or cannot be encoded, tab, enter, left, right, backspace, delete; up / down / home /
+       end / click when the layout cuts at character boundaries; set_edit_pos when its argument is a
+       boundary.  A NON-ASCII key is outside the hypotheses: edit.py inserts its UTF-8 bytes whatever
+       the byte encoding (finding C10-bytes-key-utf8). --- *)
+Theorem wide_pos_on_char_boundary_inv :
+  forall wcw es sb, OnW sb -> w_evs_ok wcw sb es ->
+    Forall (fun o => OnW (fst (fst o))) (snd (brun wcw MWide sb es)) /\ OnW (fst (brun wcw MWide sb es)).
+Proof. intros wcw es sb. exact (wide_run_on_boundary wcw (fun c => [c]) (fun u => u) es sb). Qed.
+Print Assumptions wide_pos_on_char_boundary_inv.
+
+Theorem wide_on_boundary_meaning :
+  forall sb, OnW sb ->
+    exists pre post, Forall dbchar_ok (pre ++ post) /\ text sb = dbflat pre ++ dbflat post /\ pos sb = zlen (dbflat pre).
+Proof. exact OnW_meaning. Qed.
+Print Assumptions wide_on_boundary_meaning.
+
+(* --- wide mode: left / right move over, backspace / delete remove, ONE WHOLE character (one or two
+       bytes); ASCII keys and enter are inserted at the cursor: the bytes state keeps representing the
+       character-level reference editor's state (characters named by dbcode) --- *)
+Theorem wide_keys_simulate_reference :
+  forall wcw upper lower sb ss k w lay lay',
+    Rw sb ss -> w_edit_key k ->
+    let '(sb', sg, r) := bkeypress wcw MWide sb k w lay in
+    Rw sb' (fst (ref_key (Width.cw wcw) upper lower ss k w lay')) /\
+    r = snd (ref_key (Width.cw wcw) upper lower ss k w lay') /\
+    chain (text sb) sg (text sb') /\ (r = Ok RUnhandled -> sg = []).
+Proof. exact wide_keys_sim. Qed.
+Print Assumptions wide_keys_simulate_reference.
+
+(* --- narrow mode: every byte is a character; the bytes model IS the reference editor on the bytes --- *)
+Theorem narrow_keys_simulate_reference :
+  forall wcw upper lower sb ss k w lay lay',
+    Rn sb ss -> g_edit_key ascii_key k ->
+    let '(sb', sg, r) := bkeypress wcw MNarrow sb k w lay in
+    Rn sb' (fst (ref_key (Width.cw wcw) upper lower ss k w lay')) /\
+    r = snd (ref_key (Width.cw wcw) upper lower ss k w lay') /\
+    chain (text sb) sg (text sb') /\ (r = Ok RUnhandled -> sg = []).
+Proof. exact narrow_keys_sim. Qed.
+Print Assumptions narrow_keys_simulate_reference.
+
+Theorem narrow_representation_is_identity :
+  forall sb ss, Rn sb ss -> text sb = text ss /\ pos sb = pos ss.
+Proof. exact Rn_meaning. Qed.
+Print Assumptions narrow_representation_is_identity.
+
 (* ===== what is NOT proved here (oracle / correspondence only) =====
-   - bytes mode under the OTHER byte encodings (euc-jp, big5, latin-1: 'wide' / 'narrow'): no model; the
-     harness oracle checks on a separate stream that both halves of the text around the offset decode
-     and that text/offset follow the reference editor.
+   - bytes mode, a NON-ASCII key under a non-UTF-8 byte encoding: the code inserts the key's UTF-8 bytes
+     (model and correspondence agree with the code; the oracle demands the character in the terminal
+     encoding: finding C10-bytes-key-utf8); the wide / narrow theorems are about ASCII keys.
    - bytes mode, ILL-FORMED text (not the encoding of code points): no invariant is claimed; what the
      code does is shown by the examples ill_formed_* below (IndexError, or a "character" that is a
      lead byte with the continuation bytes that happen to follow).
@@ -435,7 +498,7 @@ Definition wcw0 (c : Z) : Z := if c =? 128512 then 2 else 1.
 Example bytes_run_somewhere :
   let t := [97; 128512; 98] in
   let s0 := init [] (encs t) None true false None VEdit in
-  let '(s, outs) := brun wcw0 s0 [EKey KLeft 9 []; EKey KLeft 9 []; EKey KBackspace 9 []; EKey KRight 9 [];
+  let '(s, outs) := brun wcw0 MUtf8 s0 [EKey KLeft 9 []; EKey KLeft 9 []; EKey KBackspace 9 []; EKey KRight 9 [];
                                   EKey KDelete 9 []; EKey (KText [233]) 9 []] in
   (text s0, pos s0, map (fun o => pos (fst (fst o))) outs, text s, map snd outs)
   = ([97; 240; 159; 152; 128; 98], 6, [5; 1; 0; 4; 4; 6], [240; 159; 152; 128; 195; 169],
@@ -456,20 +519,47 @@ Qed.
    start, Python's negative indices wrap around the text, and the walk ends in IndexError *)
 Example ill_formed_left_raises :
   let s0 := init [] [128; 128] (Some 1) true false None VEdit in
-  snd (bstep wcw0 s0 (EKey KLeft 9 [])) = Err IndexError /\
-  snd (bstep wcw0 s0 (EKey KBackspace 9 [])) = Err IndexError.
+  snd (bstep wcw0 MUtf8 s0 (EKey KLeft 9 [])) = Err IndexError /\
+  snd (bstep wcw0 MUtf8 s0 (EKey KBackspace 9 [])) = Err IndexError.
 Proof. vm_compute. split; reflexivity. Qed.
 
 (* ill-formed text 2: a truncated 4-byte sequence (lead + one continuation byte) followed by 'a': the
    two bytes are treated as one character by left / backspace *)
 Example ill_formed_truncated_is_one_character :
   let s0 := init [] [240; 159; 97] (Some 2) true false None VEdit in
-  pos (fst (fst (bstep wcw0 s0 (EKey KLeft 9 [])))) = 0 /\
-  text (fst (fst (bstep wcw0 s0 (EKey KBackspace 9 [])))) = [97].
+  pos (fst (fst (bstep wcw0 MUtf8 s0 (EKey KLeft 9 [])))) = 0 /\
+  text (fst (fst (bstep wcw0 MUtf8 s0 (EKey KBackspace 9 [])))) = [97].
 Proof. vm_compute. split; reflexivity. Qed.
 
 (* outside the hypotheses: set_edit_pos with a byte offset inside a character puts the cursor there *)
 Example set_edit_pos_can_leave_the_boundaries :
   let s0 := init [] (encs [128512]) None true false None VEdit in
-  pos (fst (fst (bstep wcw0 s0 (ESetPos 2)))) = 2.
+  pos (fst (fst (bstep wcw0 MUtf8 s0 (ESetPos 2)))) = 2.
+Proof. vm_compute. reflexivity. Qed.
+
+(* ===== wide / narrow bytes: non-vacuity ===== *)
+(* big5 "a<a6 7e>b" (the trail byte 0x7e is an ASCII code): left, left, backspace, 'x', right, delete *)
+Example wide_run_somewhere :
+  let cs := [DSingle 97; DDouble 166 126; DSingle 98] in
+  let s0 := init [] (dbflat cs) None true false None VEdit in
+  let '(s, outs) := brun wcw0 MWide s0 [EKey KLeft 9 []; EKey KLeft 9 []; EKey KBackspace 9 [];
+                                       EKey (KText [120]) 9 []; EKey KRight 9 []; EKey KDelete 9 []] in
+  (text s0, pos s0, map (fun o => pos (fst (fst o))) outs, text s)
+  = ([97; 166; 126; 98], 4, [3; 1; 0; 1; 3; 3], [120; 166; 126]).
+Proof. vm_compute. reflexivity. Qed.
+
+Example wide_on_boundary_somewhere :
+  OnW (init [] (dbflat [DSingle 97; DDouble 166 126; DSingle 98]) (Some 3) true false None VEdit).
+Proof.
+  exists [], [DSingle 97; DDouble 166 126; DSingle 98], 2.
+  repeat split; try reflexivity; try (vm_compute; discriminate).
+  - constructor.
+  - repeat constructor; cbn; lia.
+Qed.
+
+(* outside the hypotheses: a lone high byte is not a character; 'left' after it lands ... inside what
+   the scan takes for a double-byte character *)
+Example wide_ill_formed :
+  let s0 := init [] [97; 166; 98] (Some 3) true false None VEdit in
+  pos (fst (fst (bstep wcw0 MWide s0 (EKey KLeft 9 [])))) = 1.
 Proof. vm_compute. reflexivity. Qed.
